@@ -123,6 +123,15 @@ func tyOK(env EnumEnv, t FTy, v Value) bool {
 				return false
 			}
 		}
+		if m := t.Int.Mult; m != nil && *m != 0 { // the declared meaning of multipleOf (the compiler refuses the rule)
+			if v.IsU64 {
+				if *m < 0 && v.U%uint64(-*m) != 0 || *m > 0 && v.U%uint64(*m) != 0 {
+					return false
+				}
+			} else if v.I%*m != 0 {
+				return false
+			}
+		}
 		return true
 	case TStr:
 		if t.Str == nil {
